@@ -219,6 +219,65 @@ def s7(ctx):
     return out
 
 
+def _variant_ctor(F, path):
+    """('adt', idx, name) if `path` names an enum variant constructor of the crate"""
+    if '::' not in path:
+        return None
+    adt, name = path.rsplit('::', 1)
+    a = F.adts.get(adt)
+    if a is None:
+        return None
+    for i, v in enumerate(a['variants']):
+        if v['name'] == name:
+            return (adt, i, name)
+    return None
+
+
+def eval_nonzero_case(ctx, t, v, zero, depth=0):
+    """value of term t in the case `v == 0` (zero=True) or `v != 0`, interpreting NonZero::new / Option combinators"""
+    F = ctx.facts
+    if t is None or depth > 20:
+        return t
+    k = t[0]
+    ev = lambda x: eval_nonzero_case(ctx, x, v, zero, depth + 1)
+    if k == 'set':
+        return mk_set([ev(x) for x in t[1]], 32)
+    if k == 'call':
+        c = term_callee(t)
+        a = [ev(x) for x in t[2]]
+        if c == 'std::num::NonZero::new' and len(a) == 1 and a[0] == v:
+            return none() if zero else some(v)
+        if c in ('std::option::Option::expect', 'std::option::Option::unwrap', 'std::option::Option::unwrap_unchecked') and a and a[0] is not None and a[0][0] == 'variant' and a[0][2] == 1:
+            return a[0][3][0]
+        if c == 'std::option::Option::map_or' and len(a) == 3 and a[0] is not None and a[0][0] == 'variant':
+            if a[0][2] == 0:
+                return a[1]
+            f = a[2]
+            if f[0] == 'fn':
+                vc = _variant_ctor(F, f[1])
+                if vc:
+                    return ('variant', vc[0], vc[1], (a[0][3][0],), vc[2])
+            return ('call', 'std::ops::Fn::call', (f, ('tuple', (a[0][3][0],))))
+        if c in ('std::option::Option::map', 'std::option::Option::map_or_else') and a and a[0] is not None and a[0][0] == 'variant':
+            if a[0][2] == 0:
+                return none() if c.endswith('::map') else ('call', 'std::ops::Fn::call', (a[1], ('tuple', ())))
+            f = a[1] if c.endswith('::map') else a[2]
+            if f[0] == 'fn':
+                vc = _variant_ctor(F, f[1])
+                if vc:
+                    r = ('variant', vc[0], vc[1], (a[0][3][0],), vc[2])
+                    return some(r) if c.endswith('::map') else r
+        if c == 'std::option::Option::unwrap_or' and len(a) == 2 and a[0] is not None and a[0][0] == 'variant':
+            return a[0][3][0] if a[0][2] == 1 else a[1]
+        return ('call', t[1], tuple(a))
+    if k == 'variant':
+        return ('variant', t[1], t[2], tuple(ev(x) for x in t[3]), t[4])
+    if k == 'field':
+        b = ev(t[1])
+        return ctx.opa.proj(b, t[3], t[2]) if b is not None else None
+    return t
+
+
 @rule('C12-FROM', 'From<usize>: 0 converts to Auto, n>0 to Max(n) / Exact(n)')
 def c12_from(ctx):
     out = RuleOut('C12-FROM')
@@ -233,30 +292,45 @@ def c12_from(ctx):
         n += 1
         r = ctx.run(name)
         v = P(b.local_name(1))
-        oks = []
+        nz_new = ('call', 'std::num::NonZero::<T>::new', (v,))
         probs = []
-        if not r.ret_edges:
-            probs.append('no return edges')
-        for (pred, rb), (val, pc) in sorted(r.ret_edges.items()):
-            zero = any(t == v and f == ('eq', 0) for t, f in pc)
-            nonzero = any(t == v and f[0] == 'ne' and 0 in f[1] for t, f in pc)
-            if zero:
-                ok = val is not None and val[0] == 'variant' and val[4] == 'Auto'
-                if not ok:
-                    probs.append('value 0 converts to %s, expected Auto' % t_str(val))
-            elif nonzero:
-                ok = (val is not None and val[0] == 'variant' and val[4] == var and len(val[3]) == 1
-                      and any(x == v for x in subterms(val[3][0])) and
-                      all(x[0] in ('call', 'param', 'const') for x in subterms(val[3][0])) and
-                      all(term_method(x) in ('new', 'expect', 'unwrap', 'new_unchecked', 'get') for x in subterms(val[3][0]) if x[0] == 'call'))
-                if not ok:
-                    probs.append('value n>0 converts to %s, expected %s(n)' % (t_str(val), var))
-            else:
-                probs.append('a return is not guarded by value == 0 / value != 0: %s' % t_str(val))
-            oks.append(t_str(val))
-        out.inst('C12-FROM/' + adt, not probs, ' | '.join(oks), sample={'from_usize': adt, 'returns': oks})
-        for p in probs:
-            out.fail('C12-FROM/' + adt, '%s: %s' % (name, p), b.where())
+        shown = []
+        edges = list(r.ret_edges.values()) or [(r.ret, frozenset())]
+        cover = {True: False, False: False}
+        for (val, pc) in edges:
+            cases = {True, False}
+            for (t, f) in pc:
+                if t == v:
+                    if f == ('eq', 0):
+                        cases &= {True}
+                    elif f[0] == 'ne' and 0 in f[1]:
+                        cases &= {False}
+                elif t[0] == 'discr' and t[1][0] == 'call' and term_callee(t[1]) == 'std::num::NonZero::new' and t[1][2] == (v,):
+                    if f == ('eq', 0):
+                        cases &= {True}
+                    elif f == ('eq', 1) or (f[0] == 'ne' and 0 in f[1]):
+                        cases &= {False}
+            for zero in sorted(cases):
+                got = eval_nonzero_case(ctx, val, v, zero)
+                cover[zero] = True
+                for alt in alternatives(got):
+                    shown.append('%s => %s' % ('0' if zero else 'n>0', t_str(alt)[:80]))
+                    if zero:
+                        ok = alt is not None and alt[0] == 'variant' and alt[1] == adt and alt[4] == 'Auto'
+                        if not ok:
+                            probs.append('value 0 converts to %s, expected Auto' % t_str(alt)[:100])
+                    else:
+                        ok = (alt is not None and alt[0] == 'variant' and alt[1] == adt and alt[4] == var and len(alt[3]) == 1
+                              and any(x == v for x in subterms(alt[3][0])) and
+                              all(x[0] in ('call', 'param', 'const', 'field', 'variant') for x in subterms(alt[3][0])) and
+                              all(term_method(x) in ('new', 'expect', 'unwrap', 'new_unchecked', 'get') for x in subterms(alt[3][0]) if x[0] == 'call'))
+                        if not ok:
+                            probs.append('value n>0 converts to %s, expected %s(n)' % (t_str(alt)[:100], var))
+        if not (cover[True] and cover[False]):
+            probs.append('not every case (0 / n>0) reaches a return')
+        out.inst('C12-FROM/' + adt, not probs, ' | '.join(sorted(set(shown))), sample={'from_usize': adt, 'cases': sorted(set(shown))})
+        for p_ in sorted(set(probs)):
+            out.fail('C12-FROM/' + adt, '%s: %s' % (name, p_), b.where())
     out.floor('from_impls', n, 2 if not ctx.fixture else 0)
     return out
 
@@ -297,7 +371,7 @@ def s3(ctx):
                 out.inst(key, ok, t_str(term)[:120], sample={'in': key_of(b), 'callee': callee, 'params_arg': t_str(term)[:160]})
                 if not ok:
                     out.fail(key, '%s passes %s as Params to %s instead of the Params it received' % (key_of(b), t_str(term)[:160], callee), b.where(t.get('line')))
-    out.floor('params_args', n, 100 if not ctx.fixture else 0)
+    out.floor('params_args', n, 40 if not ctx.fixture else 0)
     return out
 
 
@@ -321,7 +395,7 @@ def c12_store(ctx):
         out.inst('C12-STORE/' + key_of(b), ok, t_str(got), sample={'ctor': key_of(b), 'params_field': t_str(got)})
         if not ok:
             out.fail('C12-STORE/' + key_of(b), '%s stores %s in the params field instead of its params argument' % (key_of(b), t_str(got)), b.where())
-    out.floor('ctors', n, 7 if not ctx.fixture else 0)
+    out.floor('ctors', n, 5 if not ctx.fixture else 0)
     d = 0
     for b in F.bodies.values():
         if b.kind == 'AssocFn' and b.d.get('impl_self') in S.par_impl_types and not b.d.get('impl_trait') and b.d['method'].startswith('destruct'):
@@ -336,7 +410,7 @@ def c12_store(ctx):
             out.inst('C12-STORE/' + key_of(b), ok, t_str(r.ret)[:160], sample={'destruct': key_of(b), 'ret': t_str(r.ret)[:200]})
             if not ok:
                 out.fail('C12-STORE/' + key_of(b), '%s does not return self.params exactly once: %s' % (key_of(b), t_str(r.ret)[:200]), b.where())
-    out.floor('destructors', d, 11 if not ctx.fixture else 0)
+    out.floor('destructors', d, 6 if not ctx.fixture else 0)
     # step: the params field of what a transformation returns
     k = 0
     for tn in S.transformations:
@@ -474,7 +548,7 @@ def c11_runner(ctx):
         out.inst('C11-RUNNER/' + key_of(b), not bad, t_str(r.ret), sample={'fn': key_of(b), 'seed': 'self.chunk_size = Exact(X)', 'ret': t_str(r.ret)})
         for a in bad:
             out.fail('C11-RUNNER/' + key_of(b), '%s can return %s for an Exact(X) chunk size (only None or Some(X) keep the size exact)' % (key_of(b), t_str(a)[:200]), b.where())
-    out.floor('next_chunk_size_fns', n, 3 if not ctx.fixture else 0)
+    out.floor('next_chunk_size_fns', n, 1 if not ctx.fixture else 0)
     return out
 
 
@@ -483,55 +557,94 @@ def c11_spawn(ctx):
     out = RuleOut('C11-SPAWN')
     F = ctx.facts
     S = ctx.slots
+    from .rules_tasks import spawn_model
+    M = spawn_model(ctx)
     X, ex, rx = exact_seed(F)
     runner = runner_seed(F, rx)
     n = 0
-    for entry, clo in sorted(S.scope_closures.items()):
-        cb = F.bodies[clo]
-        caps = cb.d.get('captures', [])
-        capterms = tuple(runner if c.lstrip('*') == 'runner' else P('cap:' + c) for c in caps)
-        if 'runner' not in [c.lstrip('*') for c in caps]:
-            out.fail('C11-SPAWN/%s/runner' % key_of(cb), 'the scope closure of %s does not capture a `runner`: cannot seed the chunk-size chain' % strip_generics(entry), cb.where(), kind='undecided')
-            continue
-        args = [('closure', clo, capterms)] + [P(cb.local_name(l)) for l in cb.arg_locals()[1:]]
-        r = ctx.opa.run(clo, args)
-        for bb, c in r.call_sites(lambda c: sg(c['callee']) == SCOPE_SPAWN):
-            n += 1
-            sp = c['args'][1] if len(c['args']) > 1 else None
-            key = 'C11-SPAWN/%s/%s' % (strip_generics(entry), 'in-loop' if ctx.cfg(cb).innermost_loop(bb) is not None else 'trailing')
-            if sp is None or sp[0] != 'closure':
-                out.fail(key, 'spawned value is not a closure literal: %s' % t_str(sp)[:100], cb.where(c['line']), kind='undecided')
+    for hn, h in sorted(M.hosts.items()):
+        hb = h['body']
+        hk = key_of(hb)
+        # seed the runner the host works with: a captured `runner` or the `self` parameter
+        if hb.is_closure():
+            caps = hb.d.get('captures', [])
+            if 'runner' not in [c.lstrip('*') for c in caps]:
+                out.fail('C11-SPAWN/%s/runner' % hk, 'the spawn loop in %s does not capture a `runner`: cannot seed the chunk-size chain' % hk, hb.where(), kind='undecided')
                 continue
-            sb = F.bodies[sp[1]]
-            scaps = sb.d.get('captures', [])
-            # the usize capture of the spawned closure = the chunk handed to the worker
-            chunk_terms = [sp[2][i] for i, cn in enumerate(scaps) if i < len(sp[2]) and 'chunk' in cn]
-            ok = bool(chunk_terms)
+            capterms = tuple(runner if c.lstrip('*') == 'runner' else P('cap:' + c) for c in caps)
+            args = [('closure', hn, capterms)] + [P(hb.local_name(l)) for l in hb.arg_locals()[1:]]
+        else:
+            args = [runner if adt_of_local(hb, l) == RUNNER else P(hb.local_name(l) or '_%d' % l) for l in hb.arg_locals()]
+            if runner not in args:
+                out.fail('C11-SPAWN/%s/runner' % hk, 'the spawn loop in %s has no Runner parameter: cannot seed the chunk-size chain' % hk, hb.where(), kind='undecided')
+                continue
+        r = ctx.opa.run(hn, args)
+        cfg = ctx.cfg(hb)
+        seen = set()
+        for ev in h['events']:
+            if ev.bb in seen:
+                continue
+            seen.add(ev.bb)
+            n += 1
+            c = r.calls.get(ev.bb)
+            key = 'C11-SPAWN/%s/%s' % (hk, 'in-loop' if cfg.innermost_loop(ev.bb) is not None else 'trailing')
+            ct = None
+            if c is not None:
+                if ev.kind == 'direct':
+                    sp = c['args'][1] if len(c['args']) > 1 else None
+                    if sp is not None and sp[0] == 'closure':
+                        sb = F.bodies[sp[1]]
+                        scaps = sb.d.get('captures', [])
+                        cts = [sp[2][i] for i, cn in enumerate(scaps) if i < len(sp[2]) and 'chunk' in cn]
+                        ct = cts[0] if cts else None
+                else:
+                    a = c['args'][1]
+                    ct = a[1][0] if a[0] == 'tuple' and len(a[1]) == 1 else None
             vals = set()
-            for ct in chunk_terms:
-                for x in alternatives(ct):
-                    if x[0] == 'phi':
-                        k = (x[1], x[2])
-                        vs = set(alternatives(r.init.get(k)))
-                        for rec in r.recur.get(k, ()):
-                            vs |= set(alternatives(rec))
-                        vals |= {v for v in vs if v != x}
-                    else:
-                        vals.add(x)
-            ok = ok and vals == {X}
-            out.inst(key, ok, ' | '.join(sorted(t_str(v)[:80] for v in vals)), sample={'entry': strip_generics(entry), 'seed': 'runner.chunk_size = Exact(X)', 'chunk_capture': sorted(t_str(v)[:120] for v in vals)})
+            todo = list(alternatives(ct)) if ct is not None else []
+            seenp = set()
+            while todo:
+                x = todo.pop()
+                if x[0] == 'phi':
+                    k = (x[1], x[2])
+                    if k in seenp:
+                        continue
+                    seenp.add(k)
+                    todo.extend(alternatives(r.init.get(k)))
+                    for rec in r.recur.get(k, ()):
+                        todo.extend(a for a in alternatives(rec) if a != x)
+                else:
+                    vals.add(x)
+            ok = ct is not None and vals == {X}
+            out.inst(key, ok, ' | '.join(sorted(t_str(v)[:80] for v in vals)), sample={'host': hk, 'seed': 'runner.chunk_size = Exact(X)', 'chunk_handed_to_worker': sorted(t_str(v)[:120] for v in vals)})
             if not ok:
-                out.fail(key, 'a worker spawned in %s receives chunk size %s under Exact(X): the size is changed between the runner and the task'
-                         % (strip_generics(entry), ' | '.join(sorted(t_str(v)[:120] for v in vals)) or 'unknown'), cb.where(c['line']))
-            # the spawned closure passes its capture unmodified to thread_task
-            r2 = ctx.run(sb.name)
-            calls = [cc for _, cc in r2.call_sites() if is_user_closure_call(cc['t'], sb)]
-            ok2 = len(calls) == 1 and calls[0]['args'][1][0] == 'tuple' and len(calls[0]['args'][1][1]) == 1 and \
-                calls[0]['args'][1][1][0][0] == 'param' and 'chunk' in calls[0]['args'][1][1][0][1]
-            out.inst(key + '/pass', ok2, t_str(calls[0]['args'][1]) if calls else 'no call', sample=None)
+                out.fail(key, 'a worker spawned by %s receives chunk size %s under Exact(X): the size is changed between the runner and the task'
+                         % (hk, ' | '.join(sorted(t_str(v)[:120] for v in vals)) or 'unknown'), hb.where(ev.c['line']))
+            # from the event to thread_task: the spawner / spawned closures pass the chunk on unmodified
+            site = ev.site
+            sp = site.spawned
+            ok2 = False
+            why2 = 'spawned value is not a closure literal'
+            if sp is not None and sp[0] == 'closure':
+                sb = F.bodies[sp[1]]
+                scaps = sb.d.get('captures', [])
+                capt = [sp[2][i] for i, cn in enumerate(scaps) if i < len(sp[2]) and 'chunk' in cn]
+                if ev.kind == 'via-closure':
+                    # the spawner's own chunk argument is what the spawned closure captures
+                    spawner_arg = P(site.body.local_name(2) or '_2')
+                    okc = capt == [spawner_arg]
+                else:
+                    okc = bool(capt)
+                r2 = ctx.run(sb.name)
+                calls = [cc for _, cc in r2.call_sites() if is_user_closure_call(cc['t'], sb)]
+                okp = len(calls) == 1 and calls[0]['args'][1][0] == 'tuple' and len(calls[0]['args'][1][1]) == 1 and \
+                    calls[0]['args'][1][1][0][0] == 'param' and 'chunk' in calls[0]['args'][1][1][0][1]
+                ok2 = okc and okp
+                why2 = 'spawned closure captures %s and calls thread_task(%s)' % ([t_str(x) for x in capt], t_str(calls[0]['args'][1]) if calls else '-')
+            out.inst(key + '/pass', ok2, why2)
             if not ok2:
-                out.fail(key + '/pass', 'the spawned closure in %s does not call thread_task with its captured chunk size unmodified' % strip_generics(entry), sb.where())
-    out.floor('spawn_sites', n, 6 if not ctx.fixture else 0)
+                out.fail(key + '/pass', 'the closure spawned for %s does not hand the chunk size it was given to thread_task unmodified (%s)' % (hk, why2), site.body.where(site.c['line']))
+    out.floor('spawn_events', n, 2 if not ctx.fixture else 0)
     return out
 
 
@@ -568,7 +681,7 @@ def c11_taskarg(ctx):
             if not ok:
                 out.fail(key, '%s: the closure given to the runner passes %s as chunk size to %s instead of its own argument' %
                          (key_of(F.bodies[bn]), t_str(c['args'][pl - 1]) if pl else '?', key_of(tb)), cb.where(c['line']))
-    out.floor('task_calls', n, 19 if not ctx.fixture else 0)
+    out.floor('task_calls', n, 6 if not ctx.fixture else 0)
     return out
 
 
@@ -603,12 +716,14 @@ def c11_pull(ctx):
             elif is_coniter_call(t, PULL_ELEMENT):
                 n += 1
                 key = 'C11-PULL/%s/%s' % (key_of(b), method(t))
-                one = any(pt == cs and f == ('eq', 1) for pt, f in c['pc'])
+                one = any(pt == cs and f == ('eq', 1) for pt, f in c['pc']) or \
+                    any(pt in (('bin', 'Eq', cs, ('const', 1)), ('bin', 'Eq', ('const', 1), cs)) and lin.fact_truth(f) is True for pt, f in c['pc']) or \
+                    any(pt in (('bin', 'Ne', cs, ('const', 1)), ('bin', 'Ne', ('const', 1), cs)) and lin.fact_truth(f) is False for pt, f in c['pc'])
                 out.inst(key, one, 'element-wise pull under chunk_size == 1' if one else 'element-wise pull not guarded by chunk_size == 1',
                          sample={'task': key_of(b), 'pull': method(t), 'guard': 'chunk_size == 1' if one else None})
                 if not one:
                     out.fail(key, '%s pulls element-wise (%s) on a path where chunk_size may differ from 1' % (key_of(b), method(t)), b.where(c['line']))
-    out.floor('pull_sites', n, 32 if not ctx.fixture else 0)
+    out.floor('pull_sites', n, 10 if not ctx.fixture else 0)
     return out
 
 
@@ -634,6 +749,52 @@ def runner_reduce_sites(ctx):
             continue
         out.append((F.bodies[bn], bb, c, ridx, S.task_of_site.get((bn, bb), (None, []))[1]))
     return out
+
+
+def runner_result_option(r, c):
+    """the Option-valued part of a runner call's result: the result itself, or the component of a returned tuple
+    that the caller actually reads"""
+    res_t = c['res']
+    cands = []
+    for x in _terms_of(r):
+        if x[0] == 'field' and x[1] == res_t and x[2] is None:
+            cands.append(x)
+    cands = sorted(set(cands), key=lambda x: x[3])
+    # a (count, Option<T>) tuple: the Option is the last component that is projected
+    return cands[-1] if cands else res_t
+
+
+def runner_cases(ctx, b, r, c):
+    """what the kernel returns when the runner's combined result is None / Some(v)"""
+    from .optcase import case_returns_rerun
+    res_t = c['res']
+    T = runner_result_option(r, c)
+    if T == res_t:
+        return case_returns_rerun(ctx, b.name, res_t)
+    idx = T[3]
+    width = max([x[3] for x in _terms_of(r) if x[0] == 'field' and x[1] == res_t and x[2] is None] + [idx]) + 1
+    def build(opt):
+        return ('tuple', tuple(opt if i == idx else ('field', res_t, None, i) for i in range(max(width, 2))))
+    return case_returns_rerun(ctx, b.name, res_t, build)
+
+
+def _terms_of(r):
+    seen = set()
+    st = []
+    for c in r.calls.values():
+        st.extend(c['args'])
+    for (v, pc) in r.ret_edges.values():
+        st.append(v)
+        st.extend(t for t, f in pc)
+    if r.ret is not None:
+        st.append(r.ret)
+    for (d, tg) in r.switches.values():
+        st.append(d)
+    for t in st:
+        for x in subterms(t):
+            if x not in seen:
+                seen.add(x)
+                yield x
 
 
 def eval_binary_closure(ctx, op, a, b, seeds=None):
@@ -702,7 +863,7 @@ def c02_minidx(ctx):
             out.fail(key0, '%s: the reduction of per-thread find results returns %s for (%s, %s, a.idx %s b.idx): not the match with the smaller source index'
                      % (key_of(b), t_str(res_t)[:120], 'Some(a)' if ta else 'None', 'Some(b)' if tb else 'None', order), b.where(c['line']),
                      {'operator': t_str(R)[:200]})
-    out.floor('table_rows', n, 18 if not ctx.fixture else 0)
+    out.floor('table_rows', n, 6 if not ctx.fixture else 0)
     return out
 
 
@@ -824,8 +985,9 @@ def c03_outer(ctx):
         # the kernel's return value: flatten of (the second component of) the runner result
         r = ctx.run(b.name)
         top = r.ret
-        ok2 = top is not None and top[0] == 'call' and term_callee(top) == 'std::option::Option::flatten' and any(x == c['res'] for x in subterms(top))
-        out.inst(key + '/ret', ok2, t_str(top)[:80], sample=None)
+        cases, V = runner_cases(ctx, b, r, c)
+        ok2 = cases['none'] == {none()} and cases['some'] == {V}
+        out.inst(key + '/ret', ok2, 'None => %s; Some(v) => %s' % (sorted(t_str(x)[:30] for x in cases['none']), sorted(t_str(x)[:30] for x in cases['some'])), sample=None)
         if not ok2:
             out.fail(key + '/ret', '%s does not return the flattened result of the runner reduction: %s' % (key_of(b), t_str(top)[:160]), b.where())
     out.floor('reduce_entries', n, 3 if not ctx.fixture else 0)
@@ -835,17 +997,35 @@ def c03_outer(ctx):
 ORD = 'std::cmp::Ordering'
 
 
+def reduce_call_of(ctx, b, r):
+    """the `Par::reduce(self, op)` call record of a provided method body"""
+    cs = [c for _, c in r.call_sites() if sg(c['decl']) == PAR_TRAIT + '::reduce' and c['args'] and c['args'][0] == P('self')]
+    return cs[0] if len(cs) == 1 else None
+
+
+def binary_op_is(ctx, op, names):
+    """is `op` (fn item or closure) the binary operator `names` applied to its two arguments in order"""
+    x, y = P('x'), P('y')
+    if op[0] == 'fn':
+        return sg(op[1]) in names
+    if op[0] == 'closure':
+        got = eval_binary_closure(ctx, op, x, y)
+        if got is not None and got[0] == 'call' and term_callee(got) in names and tuple(got[2]) == (x, y):
+            return True
+        if got is not None and got[0] == 'bin' and ('std::ops::%s::%s' % (got[1], got[1].lower())) in names and (got[2], got[3]) == (x, y):
+            return True
+    return False
+
+
 @rule('C03-WRAP', 'fold/sum/min/max/min_by*/max_by* are thin wrappers over reduce with the right operator')
 def c03_wrap(ctx):
+    from .optcase import case_returns_rerun, apply_term
     out = RuleOut('C03-WRAP')
     F = ctx.facts
     n = 0
 
     def body_of(m):
         return F.bodies.get(PAR_TRAIT + '::' + m)
-
-    def reduce_call(t):
-        return t is not None and t[0] == 'call' and term_callee(t) == PAR_TRAIT + '::reduce' and t[2] and t[2][0] == P('self')
 
     def check(m, ok, why, b):
         nonlocal n
@@ -854,80 +1034,76 @@ def c03_wrap(ctx):
         if not ok:
             out.fail('C03-WRAP/%s::%s' % (PAR_TRAIT, m), '%s::%s is %s' % (PAR_TRAIT, m, why), b.where() if b else '')
 
-    # fold
     b = body_of('fold')
     if b:
         r = ctx.run(b.name)
-        t = r.ret
-        ok = t[0] == 'call' and term_callee(t) == 'std::option::Option::unwrap_or_else' and reduce_call(t[2][0]) and \
-            t[2][0][2][1] == P(b.local_name(3)) and t[2][1] == P(b.local_name(2))
-        check('fold', ok, t_str(t)[:160] + ' (expected reduce(self, fold).unwrap_or_else(identity))', b)
+        rc = reduce_call_of(ctx, b, r)
+        ok = False
+        why = t_str(r.ret)[:160]
+        if rc:
+            cases, V = case_returns_rerun(ctx, b.name, rc['res'])
+            ident = P(b.local_name(2))
+            ok = rc['args'][1] == P(b.local_name(3)) and cases['some'] == {V} and cases['none'] == {apply_term(ident, [])}
+            why = 'reduce(self, %s); Some(v) => %s; None => %s' % (t_str(rc['args'][1]), sorted(t_str(x)[:40] for x in cases['some']), sorted(t_str(x)[:40] for x in cases['none']))
+        check('fold', ok, why + ' (expected reduce(self, fold), v, identity())', b)
     b = body_of('sum')
     if b:
         r = ctx.run(b.name)
-        t = r.ret
+        rc = reduce_call_of(ctx, b, r)
         ok = False
-        if t[0] == 'call' and term_callee(t) in ('std::option::Option::unwrap_or', 'std::option::Option::unwrap_or_default', 'std::option::Option::unwrap_or_else') and reduce_call(t[2][0]):
-            op = t[2][0][2][1]
-            dflt_ok = len(t[2]) == 1 or (t[2][1][0] == 'call' and term_method(t[2][1]) == 'default')
-            if op[0] == 'closure':
-                cb = F.bodies[op[1]]
-                cr = ctx.run(op[1])
-                x, y = P(cb.local_name(2)), P(cb.local_name(3))
-                add = cr.ret
-                ok = dflt_ok and add[0] in ('call', 'bin') and (
-                    (add[0] == 'call' and term_callee(add) == 'std::ops::Add::add' and set(add[2]) == {x, y}) or
-                    (add[0] == 'bin' and add[1] == 'Add' and {add[2], add[3]} == {x, y}))
-            elif op[0] == 'fn':
-                ok = dflt_ok and sg(op[1]) == 'std::ops::Add::add'
-        check('sum', ok, t_str(t)[:160] + ' (expected reduce(self, +).unwrap_or(default()))', b)
+        why = t_str(r.ret)[:160]
+        if rc:
+            cases, V = case_returns_rerun(ctx, b.name, rc['res'])
+            dflt = all(x[0] == 'call' and term_method(x) == 'default' for x in cases['none']) and bool(cases['none'])
+            ok = binary_op_is(ctx, rc['args'][1], ('std::ops::Add::add',)) and cases['some'] == {V} and dflt
+            why = 'reduce(self, %s); Some(v) => %s; None => %s' % (t_str(rc['args'][1])[:60], sorted(t_str(x)[:40] for x in cases['some']), sorted(t_str(x)[:40] for x in cases['none']))
+        check('sum', ok, why + ' (expected reduce(self, +), v, default())', b)
     for m, f in (('min', 'std::cmp::Ord::min'), ('max', 'std::cmp::Ord::max')):
         b = body_of(m)
         if b:
-            t = ctx.run(b.name).ret
-            ok = reduce_call(t) and t[2][1][0] == 'fn' and sg(t[2][1][1]) == f
-            check(m, ok, t_str(t)[:160] + ' (expected reduce(self, %s))' % f.split('::')[-1], b)
-    less, equal, greater = (F.discr_of(ORD, F.variant_index(ORD, v)) for v in ('Less', 'Equal', 'Greater'))
+            r = ctx.run(b.name)
+            rc = reduce_call_of(ctx, b, r)
+            ok = rc is not None and r.ret == rc['res'] and binary_op_is(ctx, rc['args'][1], (f,))
+            check(m, ok, t_str(r.ret)[:160] + ' (expected reduce(self, %s))' % f.split('::')[-1], b)
+    ord_variant = {nm: ('variant', ORD, F.variant_index(ORD, nm), (), nm) for nm in ('Less', 'Equal', 'Greater')} if ORD in F.adts else {}
     for m in ('min_by', 'max_by', 'min_by_key', 'max_by_key'):
         b = body_of(m)
         if not b:
             continue
-        t = ctx.run(b.name).ret
+        r = ctx.run(b.name)
+        rc = reduce_call_of(ctx, b, r)
         user = P(b.local_name(2))
-        if not (reduce_call(t) and t[2][1][0] == 'closure' and t[2][1][2] == (user,)):
-            check(m, False, t_str(t)[:160] + ' (expected reduce(self, closure over the user function))', b)
+        if not (rc is not None and r.ret == rc['res'] and rc['args'][1][0] == 'closure' and user in rc['args'][1][2]):
+            check(m, False, t_str(r.ret)[:160] + ' (expected reduce(self, closure over the user function))', b)
             continue
-        op = t[2][1]
+        op = rc['args'][1]
         cb = F.bodies[op[1]]
         x, y = P(cb.local_name(2)), P(cb.local_name(3))
-        cap = P('cap:' + cb.d['captures'][0])
-        # the scrutinee: compare(&x,&y) or key(&x).cmp(&key(&y))
+        capi = list(op[2]).index(user)
+        cap = P('cap:' + cb.d['captures'][capi])
         r0 = ctx.run(op[1])
-        scrs = [d for (d, _) in r0.switches.values() if d[0] == 'discr']
-        ok = len(scrs) >= 1
-        why = ''
+        if m.endswith('_key'):
+            kx = ('call', 'std::ops::Fn::call', (cap, ('tuple', (x,))))
+            ky = ('call', 'std::ops::Fn::call', (cap, ('tuple', (y,))))
+            cts = [c['res'] for _, c in r0.call_sites() if method(c['t']) == 'cmp' and tuple(c['args']) == (kx, ky)]
+            bad_order = [c for _, c in r0.call_sites() if method(c['t']) == 'cmp' and tuple(c['args']) != (kx, ky)]
+        else:
+            want = ('call', 'std::ops::Fn::call', (cap, ('tuple', (x, y))))
+            cts = [c['res'] for _, c in r0.call_sites() if c['res'] == want]
+            bad_order = [c for _, c in r0.call_sites() if is_user_closure_call(c['t'], cb) and c['res'] != want]
+        if len(cts) != 1 or bad_order or not ord_variant:
+            check(m, False, 'the ordering is not computed as %s' % ('key(x).cmp(&key(y))' if m.endswith('_key') else 'compare(&x, &y)'), b)
+            continue
+        CT = cts[0]
         verdicts = {}
-        if ok:
-            scr = scrs[0][1]
-            if m.endswith('_key'):
-                kx = ('call', 'std::ops::Fn::call', (cap, ('tuple', (x,))))
-                ky = ('call', 'std::ops::Fn::call', (cap, ('tuple', (y,))))
-                shape_ok = scr[0] == 'call' and term_method(scr) == 'cmp' and scr[2] == (kx, ky)
-            else:
-                shape_ok = scr == ('call', 'std::ops::Fn::call', (cap, ('tuple', (x, y))))
-            if not shape_ok:
-                ok = False
-                why = 'ordering scrutinee is %s' % t_str(scr)[:120]
-            else:
-                for nm, dv in (('Less', less), ('Equal', equal), ('Greater', greater)):
-                    rr = ctx.opa.run(op[1], seeds={'discr': {t_str(scr): dv}, 'key': (m, nm)})
-                    verdicts[nm] = rr.ret
-                if m.startswith('min'):
-                    ok = verdicts['Less'] == x and verdicts['Greater'] == y and verdicts['Equal'] in (x, y)
-                else:
-                    ok = verdicts['Greater'] == x and verdicts['Less'] == y and verdicts['Equal'] in (x, y)
-                why = ', '.join('%s=>%s' % (k, t_str(v)) for k, v in verdicts.items())
-        check(m, ok, why or 'no Ordering match found', b)
+        for nm, vt in ord_variant.items():
+            rr = ctx.opa.run(op[1], seeds={'subst': {CT: vt}, 'key': (m, nm)})
+            verdicts[nm] = rr.ret
+        if m.startswith('min'):
+            ok = verdicts['Less'] == x and verdicts['Greater'] == y and verdicts['Equal'] in (x, y)
+        else:
+            ok = verdicts['Greater'] == x and verdicts['Less'] == y and verdicts['Equal'] in (x, y)
+        check(m, ok, ', '.join('%s=>%s' % (k, t_str(v)) for k, v in verdicts.items()), b)
     out.floor('wrappers', n, 8 if not ctx.fixture else 0)
     return out
 
@@ -944,15 +1120,17 @@ def c04_sum(ctx):
         key = 'C04-SUM/%s' % key_of(b)
         A, B = P('a'), P('b')
         got = eval_binary_closure(ctx, R, A, B) if R[0] in ('closure', 'fn') else None
-        ok = got is not None and got[0] == 'bin' and got[1] == 'Add' and {got[2], got[3]} == {A, B}
+        ok = got is not None and ((got[0] == 'bin' and got[1] == 'Add' and {got[2], got[3]} == {A, B}) or
+                                  (got[0] == 'call' and term_callee(got) == 'std::ops::Add::add' and set(got[2]) == {A, B}))
         out.inst(key, ok, t_str(got), sample={'par_entry': key_of(b), 'operator': t_str(got)})
         if not ok:
             out.fail(key, '%s combines the per-thread counts with %s instead of a + b' % (key_of(b), t_str(got)[:120]), b.where(c['line']))
         r = ctx.run(b.name)
         top = r.ret
-        ok2 = top is not None and top[0] == 'call' and term_callee(top) == 'std::option::Option::unwrap_or' and top[2][1] == ('const', 0) \
-            and any(x == c['res'] for x in subterms(top[2][0]))
-        out.inst(key + '/ret', ok2, t_str(top)[:80])
+        cases, V = runner_cases(ctx, b, r, c)
+        zero_like = bool(cases['none']) and all(x == ('const', 0) or (x[0] == 'call' and term_method(x) == 'default') for x in cases['none'])
+        ok2 = zero_like and cases['some'] == {V}
+        out.inst(key + '/ret', ok2, 'None => %s; Some(v) => %s' % (sorted(t_str(x)[:30] for x in cases['none']), sorted(t_str(x)[:30] for x in cases['some'])))
         if not ok2:
             out.fail(key + '/ret', '%s does not return the runner\'s sum (or 0 when no thread ran): %s' % (key_of(b), t_str(top)[:160]), b.where())
     out.floor('count_entries', n, 3 if not ctx.fixture else 0)
@@ -976,7 +1154,10 @@ def c04_foreach(ctx):
     if len(cnt) == 1:
         a0 = cnt[0]['args'][0]
         why = t_str(a0)[:160]
-        if a0[0] == 'call' and term_callee(a0) == PAR_TRAIT + '::map' and a0[2][0] == P('self') and a0[2][1][0] == 'closure' and a0[2][1][2] == (f,):
+        if a0[0] == 'call' and term_callee(a0) == PAR_TRAIT + '::map' and a0[2][0] == P('self') and a0[2][1] == f:
+            ok = True
+            why += ' ; f itself is the map stage'
+        elif a0[0] == 'call' and term_callee(a0) == PAR_TRAIT + '::map' and a0[2][0] == P('self') and a0[2][1][0] == 'closure' and a0[2][1][2] == (f,):
             cb = F.bodies[a0[2][1][1]]
             cr = ctx.run(cb.name)
             calls = [c for _, c in cr.call_sites()]
@@ -1040,7 +1221,7 @@ def c08_guard(ctx):
             if not implied:
                 out.fail('C08-GUARD/do_spawn/bound', 'do_spawn may return true (has_more = %s) on a path whose condition [%s] does not imply num_spawned + 1 < max_num_threads: one worker too many can be spawned'
                          % (v['name'], '; '.join(facts)), b.where())
-    out.floor('return_edges', rows, 5 if not ctx.fixture else 0)
+    out.floor('return_edges', rows, 3 if not ctx.fixture else 0)
     return out
 
 
@@ -1107,7 +1288,7 @@ def c08_seq(ctx):
         out.inst('C08-SEQ/' + key_of(b), not hit, 'reaches %d bodies' % len(prev), sample={'kernel': key_of(b), 'reachable_bodies': len(prev)})
         if hit:
             out.fail('C08-SEQ/' + key_of(b), 'sequential kernel %s reaches the thread API through %s' % (key_of(b), ' -> '.join(strip_generics(x) for x in ctx.cg.path_to(prev, hit[0]))), b.where())
-    out.floor('seq_kernels', len(S.seq_kernels), 16 if not ctx.fixture else 0)
+    out.floor('seq_kernels', len(S.seq_kernels), 6 if not ctx.fixture else 0)
     out.floor('threading_bodies', len(threaders), 3 if not ctx.fixture else 0)
     return out
 
@@ -1201,8 +1382,9 @@ def c10_signal(ctx):
             continue
         r = ctx.opa.run(tn, avoid=sig_blocks)
         bad = []
-        edges = list(r.ret_edges.values()) or [(term, pc) for (_, term, pc) in r.returns]
-        for (term, pc) in edges:
+        bad_line = {}
+        edges = [(term, pc, pred) for (pred, rb), (term, pc) in r.ret_edges.items()] or [(term, pc, rb) for (rb, term, pc) in r.returns]
+        for (term, pc, pred) in edges:
             for alt in alternatives(term):
                 if alt[0] == 'variant' and alt[1] == OPTION and alt[2] == 0:
                     continue
@@ -1212,11 +1394,14 @@ def c10_signal(ctx):
                            (pt == ('discr', alt) and f == ('eq', 0)) for pt, f in pc):
                     if alt not in bad:
                         bad.append(alt)
+                        blk = b.blocks[pred]
+                        lines = [st.get('line') for st in blk['stmts'] if st.get('line')] + [blk['term'].get('line')]
+                        bad_line[alt] = next((x for x in reversed(lines) if x), None)
         out.inst(key, not bad, 'unsignalled returns: %s' % t_str(r.ret)[:100], sample={'task': key_of(b), 'skip_to_end_blocks': len(sig_blocks), 'returns_without_signal': t_str(r.ret)[:200]})
         for alt in bad:
-            out.fail(key, '%s can return %s (possibly a match) on a path that never called skip_to_end: the early-exit signal is skipped' % (key_of(b), t_str(alt)[:160]), b.where())
+            out.fail(key, '%s can return %s (possibly a match) on a path that never called skip_to_end: the early-exit signal is skipped' % (key_of(b), t_str(alt)[:160]), b.where(bad_line.get(alt)))
     out.floor('find_tasks', len(reach_find), 3 if not ctx.fixture else 0)
-    out.floor('skip_to_end_sites', n_sig, 6 if not ctx.fixture else 0)
+    out.floor('skip_to_end_sites', n_sig, 3 if not ctx.fixture else 0)
     return out
 
 
@@ -1240,7 +1425,7 @@ def c10_nopull(ctx):
             out.inst(key, not pulls, 'blocks after match: %d' % len(reach), sample={'task': key_of(b), 'blocks_reachable_after_match': len(reach), 'pulls_after_match': len(pulls)})
             for x in pulls:
                 out.fail(key, '%s can pull again (%s) after it has found a match' % (key_of(b), method(b.blocks[x]['term'])), b.where(b.blocks[x]['term'].get('line')))
-    out.floor('match_edges', n, 6 if not ctx.fixture else 0)
+    out.floor('match_edges', n, 3 if not ctx.fixture else 0)
     return out
 
 
@@ -1312,5 +1497,5 @@ def c10_chunkdep(ctx):
         out.inst(key, not bad, t_str(r.ret)[:200], sample={'fn': key_of(b), 'chunk_size_terms': t_str(r.ret)[:300]})
         if bad:
             out.fail(key, '%s computes the next chunk size from the remaining input length (%s): the work a late worker still does after a match grows with the input instead of being bounded' % (key_of(b), t_str(bad[0])), b.where(), {'ret': t_str(r.ret)[:500]})
-    out.floor('chunk_size_fns', n, 2 if not ctx.fixture else 0)
+    out.floor('chunk_size_fns', n, 1 if not ctx.fixture else 0)
     return out
